@@ -209,6 +209,8 @@ class ModuleInfo:
                 for tg in st.targets:
                     if isinstance(tg, ast.Name):
                         self.defs[tg.id] = ("assign", st.value)
+            elif isinstance(st, ast.AnnAssign) and isinstance(st.target, ast.Name) and st.value is not None:
+                self.defs[st.target.id] = ("assign", st.value)
 
     def lookup(self, name):
         if name in self._cache:
